@@ -52,6 +52,13 @@ def run(ctx):
     with warnings.catch_warnings():
         warnings.simplefilter("ignore")
         np.seterr(all="ignore")
+        # the requested number of masses, for small, large, odd and round sizes
+        for N_ in (1, 7, 1000, 499999, 500001, 750001, 1000000):
+            np.random.seed(12345)
+            m_, _h = sample_mf(N_, 11.0, sort=False, **dict(base, Mmax=15.0))
+            ncase += 1
+            if len(m_) != N_:
+                viol("count", f"sample_mf returned {len(m_)} masses for N={N_}", {"N": N_})
         for ci, cfg in enumerate(configs):
             N = int(r.choice([20000, 50000] if quick else [20000, 100000, 300000]))
             seed = r.randrange(2 ** 31)
